@@ -322,7 +322,7 @@ def op_from_json(j):
             a[k] = None if v is None else lam_from_json(v)
         elif k in ('f2', 'g2'):
             a[k] = None if v is None else lam2_from_json(v)
-        elif k in ('n', 'm', 'k', 'b', 'name', 'names'):
+        elif k in ('n', 'm', 'k', 'b', 'b2', 'name', 'names', 'alias'):
             a[k] = v
         elif k in ('v', 'w'):
             a[k] = dec_rt(v)
